@@ -1,7 +1,7 @@
 """C09 — BioConsert is never worse than any of its starting points."""
 import random
 from hypothesis import strategies as st
-from vlib import gen, lib, configs, oracle
+from vlib import gen, lib, configs, oracle, mutate
 from vlib.harness import HypSub
 from vlib.lib import Violation
 from checks.common_alg import well_formed
@@ -63,8 +63,9 @@ def cases(draw, tier):
     big = tier == "thorough"
     starters = draw(st.sampled_from(sorted(STARTERS)))
     mx = (14 if big else 8) if "exact" not in starters else 7
-    return {"starters": starters, "scheme": draw(schemes()),
-            "dataset": draw(gen.datasets(max_n=mx, max_m=6, shapes=SHAPES + ["cyclic_ties", "mixture"])),
+    ds_ = draw(gen.datasets(max_n=mx, max_m=6, shapes=SHAPES + ["cyclic_ties", "mixture"]))
+    return {"starters": starters, "scheme": draw(schemes()), "dataset": ds_,
+            "via_mutation": draw(mutate.via_strategy(ds_["rankings"], p=5)),
             "at_most_one": draw(st.booleans()), "rng": draw(st.integers(0, 9999))}
 
 
@@ -78,11 +79,17 @@ def id_orders_differ(rankings, departures):
 
 def check(case, ctx):
     rankings, scheme = case["dataset"]["rankings"], case["scheme"]
-    d, s = lib.mk_dataset(rankings), lib.mk_scheme(scheme)
+    s = lib.mk_scheme(scheme)
     recs = [configs.Recorder(a) for a in STARTERS[case["starters"]]()]
     alg = BioConsert(recs) if recs else BioConsert()
 
     def run():
+        def warm(d0):
+            # the SAME BioConsert instance (and starters) is used on the dataset before its in-place mutation
+            alg.compute_consensus_rankings(d0, s, case["at_most_one"])
+        d = mutate.build(rankings, case.get("via_mutation"), warm)
+        for r in recs:
+            del r.calls[:]
         random.seed(case["rng"])
         return alg.compute_consensus_rankings(d, s, case["at_most_one"])
 
